@@ -252,4 +252,52 @@ theorem buildIndex_strict (recs : List Rec) : StrictSorted (buildIndex recs) := 
   | nil => simp [dedup, StrictSorted]
   | cons e rest => exact dedupAux_strict e rest h'
 
+
+/-! ### completeness: no spurious miss -/
+
+/-- the slot with the greatest address `≤ a` is the one the lookup uses -/
+theorem pick_of_slot {ix : List Entry} (hs : StrictSorted ix) {i : Nat} {e : Entry} {a : Nat}
+    (he : ix[i]? = some e) (h1 : e.addr ≤ a) (h2 : ∀ nxt, ix[i + 1]? = some nxt → a < nxt.addr) :
+    pick ix a = some i := by
+  unfold pick
+  apply pickIndex_of_spec _ _ i e.addr (strict_keys_le hs) (by simp [List.getElem?_map, he]) h1
+  intro k' hk'
+  cases hn : ix[i + 1]? with
+  | none => simp [List.getElem?_map, hn] at hk'
+  | some nxt =>
+    simp [List.getElem?_map, hn] at hk'
+    have := h2 nxt hn
+    omega
+
+/-- a readable PUBLIC record answers every address from its own up to the next symbol address (or without
+bound if it is the last); a readable FUNC record answers every address of its own range below the next
+symbol address -/
+theorem lookupRel_complete {f : File} {ix : List Entry} (hs : StrictSorted ix) {i : Nat} {e : Entry} {a : Nat}
+    (he : ix[i]? = some e) (h1 : e.addr ≤ a) (h2 : ∀ nxt, ix[i + 1]? = some nxt → a < nxt.addr) :
+    (∀ n, e.kind = .public_ → f.pubAt e.offset = some n →
+      lookupRel f ix a = .hit ⟨e.addr, (ix[i + 1]?).map (fun nxt => nxt.addr - e.addr), n⟩) ∧
+    (∀ size n, e.kind = .func → f.funcAt e.offset = some (size, n) → a < e.addr + size →
+      lookupRel f ix a = .hit ⟨e.addr, some size, n⟩) := by
+  have hp := pick_of_slot hs he h1 h2
+  constructor
+  · intro n hk hn
+    unfold lookupRel
+    rw [hp]
+    simp only
+    rw [he]
+    simp only [answer, hk, hn]
+    cases hnx : ix[i + 1]? with
+    | none => simp
+    | some nxt =>
+      have := h2 nxt hnx
+      simp
+      omega
+  · intro size n hk hn hlt
+    unfold lookupRel
+    rw [hp]
+    simp only
+    rw [he]
+    simp only [answer, hk, hn]
+    rw [if_neg (by omega)]
+
 end Breakpad
